@@ -98,6 +98,7 @@ public:
       --n.childnotready;
     }
 
+    GALOIS_VERIF_POINT(BAR_TOPO_ARRIVED);
     // wait for signal
     if (id != 0) {
       while (n.parentsense != s) {
@@ -109,6 +110,7 @@ public:
     if (leader) {
       if (n.childpointers[0])
         n.childpointers[0]->parentsense = s;
+      GALOIS_VERIF_POINT(BAR_TOPO_WAKE);
       if (n.childpointers[1])
         n.childpointers[1]->parentsense = s;
       if (id == 0)
